@@ -481,11 +481,15 @@ func (w *world) idleWorkers() []*workerSim {
 	return out
 }
 
-var completionKinds = []string{"ok", "ok", "ok", "exit1", "deadline", "internal"}
+// "bare" is a completion without status and without ActionResult: success
+// (status OK, exit code 0) in its shortest encoding.
+var completionKinds = []string{"ok", "ok", "ok", "exit1", "deadline", "internal", "bare"}
 
 func makeResponse(kind string, salt int) *remoteexecution.ExecuteResponse {
 	md := &remoteexecution.ExecutedActionMetadata{Worker: fmt.Sprintf("salt%d", salt), VirtualExecutionDuration: durationpb.New(time.Duration(salt%7+1) * time.Second)}
 	switch kind {
+	case "bare":
+		return &remoteexecution.ExecuteResponse{Message: fmt.Sprintf("r%d", salt)}
 	case "ok":
 		return &remoteexecution.ExecuteResponse{Result: &remoteexecution.ActionResult{ExitCode: 0, ExecutionMetadata: md}, Message: fmt.Sprintf("r%d", salt)}
 	case "exit1":
@@ -1016,7 +1020,11 @@ func (w *world) stepKillQueue() bool {
 	return true
 }
 
-var drainPatterns = []map[string]string{{}, {"pool": "p0"}, {"pool": "p1"}, {"host": "w0"}, {"host": "w1"}}
+// The last three patterns match no worker; together with {host w0, pool
+// p0} they only differ in where the separators of a naive rendering of the
+// map would fall, so an injective drain key keeps them apart.
+var drainPatterns = []map[string]string{{}, {"pool": "p0"}, {"pool": "p1"}, {"host": "w0"}, {"host": "w1"},
+	{"host": "w0", "pool": "p0"}, {"host": "w0 pool:p0"}, {"host": "w0\",\"pool\":\"p0"}, {"host:w0 pool": "p0"}}
 
 func (w *world) stepDrain(add bool) bool {
 	wk := w.workers[rapid.IntRange(0, len(w.workers)-1).Draw(w.rt, "worker")]
@@ -1043,7 +1051,7 @@ func (w *world) stepDrain(add bool) bool {
 }
 
 func (w *world) stepTerminate() bool {
-	pat := drainPatterns[rapid.IntRange(1, len(drainPatterns)-1).Draw(w.rt, "pattern")]
+	pat := drainPatterns[rapid.IntRange(1, 5).Draw(w.rt, "pattern")]
 	ctx, cancel := context.WithCancel(context.Background())
 	tc := &terminateCall{pattern: pat, cancel: cancel, step: w.stepNo}
 	w.m.pre()
